@@ -106,8 +106,8 @@ func reportMaterial(t *vk.T, proto string, shares []fx.Share, n, th int, tag str
 // the participant list as its sender (what anybody on the network can produce).  Key generation is an agreement
 // between the listed parties: the copies must have no effect, i.e. the session completes and satisfies the same
 // oracle.  Returns the Prepare hook and a counter of the copies delivered.
-func c02Outsider(ids []party.ID, k int) (func(n *sim.Net), *int) {
-	names := []party.ID{"stranger", party.ID("\x01"), party.ID(string(ids[len(ids)-1]) + "~"), party.ID("\xf4\x8f\xbf\xbf")}
+func c02Outsider(ids []party.ID, k int, extra ...party.ID) (func(n *sim.Net), *int) {
+	names := append(append([]party.ID{}, extra...), "stranger", party.ID("\x01"), party.ID(string(ids[len(ids)-1])+"~"), party.ID("\xf4\x8f\xbf\xbf"))
 	who := names[k%len(names)]
 	for _, id := range ids {
 		if id == who {
